@@ -640,3 +640,59 @@ def op_c06(case):
         r["args"] = [_merge_words(proc_pieces(a)) for a in call.args]
         r["keywords"] = len(call.keywords)
     return r
+
+
+# ---------------------------------------------------------------------------------------------
+# C07: captured macro texts
+# ---------------------------------------------------------------------------------------------
+def _nopos_dump(node) -> str:
+    return ast.dump(node, include_attributes=False)
+
+
+def _follower_ok(tree, follower: str):
+    import textwrap
+
+    if not follower.strip():
+        return True
+    try:
+        f = P().parse_string(textwrap.dedent(follower), mode="exec")
+    except BaseException:  # noqa: BLE001
+        return None
+    want = [_nopos_dump(s) for s in f.body]
+    for node in ast.walk(tree):
+        for fld in ("body", "orelse", "finalbody"):
+            lst = getattr(node, fld, None)
+            if isinstance(lst, list) and len(lst) >= len(want) and all(isinstance(x, ast.stmt) for x in lst):
+                if [_nopos_dump(s) for s in lst[-len(want):]] == want:
+                    return True
+    return False
+
+
+def op_c07(case):
+    src, kind = case["src"], case["kind"]
+    arm()
+    try:
+        tree = P().parse_string(src, mode="exec")
+    except HangTimeout:
+        return {"ok": False, "hang": True}
+    except BaseException as e:  # noqa: BLE001
+        return {"ok": False, "exc": exc_record(e)}
+    got, func = None, ""
+    for node in ast.walk(tree):
+        if not isinstance(node, ast.Call):
+            continue
+        f = _xattr(node.func)
+        if kind == "call" and f == "call_macro" and got is None:
+            func = f
+            t = node.args[1] if len(node.args) > 1 else None
+            got = [e.value if isinstance(e, ast.Constant) else "?" + type(e).__name__ for e in t.elts] if isinstance(t, ast.Tuple) else ["?notuple"]
+        elif kind in ("with", "with1") and f == "enter_macro" and got is None:
+            func = f
+            b = node.args[1] if len(node.args) > 1 else None
+            got = [b.value if isinstance(b, ast.Constant) else "?" + type(b).__name__]
+        elif kind == "proc" and f and f.startswith("subproc_") and got is None:
+            func = "subproc"
+            got = [a.value if isinstance(a, ast.Constant) else "?" + type(a).__name__ for a in node.args]
+    fo = _follower_ok(tree, case.get("follower", ""))
+    return {"ok": True, "func": func, "got": got if got is not None else [], "found": got is not None,
+            "after": "ok" if fo else ("follower_unparsable_alone" if fo is None else "differs")}
